@@ -69,13 +69,12 @@ def shadows(log=None):
     log = log or LogRec()
     return loader.shadow(
         (ENC, "struct", SymStructMod), (ENC, "isinstance", V.sym_isinstance),
-        (CX, "isinstance", V.sym_isinstance), (CX, "str", V.sym_str), (CX, "log", log),
-        (CX, "NoiseInvalidMessage", N.NoiseInvalidMessage), (CX, "NoiseHandshakeError", N.NoiseHandshakeError))
+        (CX, "isinstance", V.sym_isinstance), (CX, "str", V.sym_str), (CX, "log", log))
 
 
 SHADOWS = ["encode.struct (pack/unpack '>L' as linear arithmetic)", "encode.isinstance", "connection.isinstance",
            "connection.str (UTF-8 decode: ASCII symbolic, non-ASCII symbolic byte => UnicodeDecodeError)",
-           "connection.log", "connection.NoiseInvalidMessage/NoiseHandshakeError (ideal Noise stub)"]
+           "connection.log"]
 
 
 def sym_eq(a, b):
